@@ -186,6 +186,7 @@ inline i_mep::const_iterator i_mep::end() const
 ///
 inline i_mep::iterator i_mep::begin()
 {
+  signature_.clear();  // the iterator gives write access to the active genes
   return i_mep::iterator(*this);
 }
 
